@@ -87,6 +87,40 @@ func setup(tier string, seed uint64) {
 		a.tables["kern"] = k.Encode()
 		pool = append(pool, a)
 	}
+	// valid files in unusual but accepted shapes: optional tables missing
+	// (Read accepts CFF fonts without maxp/head/hmtx/OS/2/post/name and
+	// TrueType fonts without hmtx/OS/2/post/name/cmap)
+	for i := 0; i < 16; i++ {
+		t := tape.New(tape.CaseSeed(seed, "C02-dropped", uint64(i)))
+		src := pool[14+i%24]
+		dir, _ := simgen.ParseDirectory(src.file)
+		tables := map[string][]byte{}
+		for tag, data := range src.tables {
+			if len(tag) == 4 {
+				tables[tag] = data
+			}
+		}
+		delete(tables, "kern")
+		optional := []string{"hmtx", "OS/2", "post", "name", "cmap", "hhea", "GDEF"}
+		if _, isCFF := tables["CFF "]; isCFF {
+			optional = append(optional, "maxp", "head")
+		}
+		dropped := 0
+		for _, tag := range optional {
+			if _, ok := tables[tag]; ok && t.Chance(1, 3) {
+				delete(tables, tag)
+				dropped++
+			}
+		}
+		if dropped == 0 {
+			delete(tables, optional[t.Draw(len(optional))])
+		}
+		w := simio.NewWriter()
+		if _, err := header.Write(w, dir.Scaler, tables); err != nil {
+			panic(err)
+		}
+		add(fmt.Sprintf("%s-tables-dropped", src.name), w.Disk)
+	}
 	// hand-assembled CFF tables with subroutines (the library's writer emits
 	// none); the undamaged artefact must be readable
 	for i := 0; i < 8; i++ {
